@@ -71,6 +71,18 @@ C["C08"] = ("Coq theorems over a model of the store's three update handlers, the
             "the real store, the real 32-slot channel and a real Controller (started late so the store runs ahead) with a recording processor, vs the extracted model and vs the property "
             "computed from the history alone.",
             "Processor creation is assumed to succeed; the discovery client (gRPC) is outside the model; Go-level interleavings are sampled, the schedule theorem covers the FIFO model.", "DESIGN.md §4 C08")
+C["C03"] = ("Coq theorems over a transition system of the request path (connections reading in order, handlers sending one child at a time to the node owning the child's key, one FIFO "
+            "connection per node, nodes answering, per-connection writers) for EVERY per-key command semantics, layout and schedule: with one connection the replies written so far are "
+            "always the single server's replies to the first requests in order, and all of them at quiescence; with any number of connections the send order is a linearization (the "
+            "single server replaying it gives the recorded replies, it contains each connection's children in program order, outputs are assembled from them); every command is queued on "
+            "the node owning its slot. Invariant proof by induction over steps. Tie: generated handler table (plan_of) + programs through the real processor over TCP against a simulated "
+            "cluster vs the extracted model (replies, per-node command order, redirect counters) and vs ss_run.",
+            "Node semantics duplicated in Coq and the Go simulator; non-keyed commands outside; concurrency on shared keys not compared (no linearizability search).", "DESIGN.md §4 C03")
+C["C01"] = ("Coq theorems over the same transition system: on every connection, at every point of every schedule, length(out) = requests answered <= requests read, out is the prefix of the "
+            "single server's replies in order (one connection), and in general each reply is assembled from the replies to that request's own children; every reply the proxy writes itself "
+            "(errors, fixed answers, the sum error) has no LF in its text for ANY request content, so it is one frame; decoding does not depend on fragmentation (C10). Tie: pipelines with "
+            "random fragmentation and concurrent connections against nodes answering at different speeds, replies and absence of extra bytes compared with the model.",
+            "Delays are per node; Go-level interleavings sampled.", "DESIGN.md §4 C01")
 checks = []
 for pid in sorted(C):
     text, note, ref = C[pid]
